@@ -1,6 +1,7 @@
 package interp
 
 import (
+	"time"
 	"fmt"
 	"go/types"
 	"math"
@@ -640,7 +641,19 @@ func init() {
 		w.timers[&cell].fn = fire
 		return &cell
 	})
-	reg("(time.Time).Format", func(fr *frame, a []Value) Value { return Str{S: "0101-000000"} })
+	reg("(time.Time).Format", func(fr *frame, a []Value) Value {
+		// times of the engine are wall-clock UTC instants of virtual time (timeValue); a
+		// concrete instant with a concrete layout is formatted the way the real method does
+		if st, ok := a[0].(Struct); ok && len(st) == 3 {
+			wall, ok1 := st[0].(*smt.Term)
+			ext, ok2 := st[1].(*smt.Term)
+			lay, ok3 := a[1].(Str)
+			if ok1 && ok2 && ok3 && lay.IsConcrete() && wall.IsConst() && ext.IsConst() && wall.U < 1e9 {
+				return Str{S: time.Unix(int64(ext.U)-62135596800, int64(wall.U)).UTC().Format(lay.S)}
+			}
+		}
+		return Str{S: "0101-000000"}
+	})
 	reg("(time.Time).String", func(fr *frame, a []Value) Value { return Str{S: "2024-01-01 00:00:00 +0000 UTC"} })
 	reg("(time.Duration).String", func(fr *frame, a []Value) Value {
 		return Str{S: fmt.Sprint(timeDuration(fr.concInt(a[0], "Duration.String")))}
